@@ -19,9 +19,11 @@ func VerifC14_gslbInit() {
 		vrt.Assume(w >= -1 && w <= 1000)
 		conf[subNamesC14[i]] = w
 	}
-	vrt.MapOrder(true)
+	// b1: insertion order (reference); b2: every order (agreement with a fixed reference for every order
+	// is equivalent to pairwise agreement, with k instead of k*k paths)
 	b1, b2 := NewBalanceGslb("c"), NewBalanceGslb("c")
 	e1 := b1.Init(conf)
+	vrt.MapOrder(true)
 	e2 := b2.Init(conf)
 	vrt.MapOrder(false)
 	vrt.Assert((e1 == nil) == (e2 == nil), "C14/gslb-accept-independent-of-map-order")
